@@ -38,6 +38,7 @@ def run(chk):
     chk.rule("C07.kinematics", "d/dt p = v, d/dt v = a per phase; acceleration in {+a, 0, -a}")
     chk.rule("C07.continuity", "v and p continuous at t1, t2; start conditions at t = 0")
     chk.rule("C07.goal", "with the constructor's durations: v(t3) = end velocity, p(t3) = end position")
+    chk.rule("C07.accept", "acceptance = the constructor's feasibility assertions, present on every returning path in the debug and the release profile")
     chk.rule("C07.conditioning", "no f32 intermediate of a closed form has higher degree in the query time than the value it contributes to (exact cancellation of leading terms = unbounded relative rounding error)")
     chk.rule("C07.units", "accessor results carry mm/s^2, mm/s, mm on every path; no unit assertion can fail")
     sim = S.Sim(prog)
@@ -46,6 +47,33 @@ def run(chk):
     for v in sub.violations:
         if v["rule"] == "analysis-incomplete":
             chk.violation(v["rule"], v["key"], v["what"], **v["detail"])
+
+    # "for every accepted profile": acceptance is the constructor's three feasibility assertions (phase durations >= 0); the
+    # identities below are proved for 0 <= t1 <= t2 <= t3 only.  The assertions must hold in both profiles (K1 debug, K6 release).
+    key0 = "accept:feasibility-asserted"
+    chk.obligation(key0, "every returning constructor path has asserted the three phase durations non-negative (debug and release)")
+    okc = True
+    p6 = load_config("K6")
+    chk.configs.append("K6")
+    for cfgname, pr, sm in (("K1", prog, sim), ("K6", p6, S.Sim(p6))):
+        s2 = report.Check("C07", chk.tier)
+        C06.check_constructor(s2, pr, sm)
+        chk.evaluated(1, nontrivial=(key0, cfgname))
+        for v in s2.violations:
+            if ":ordering:assert" in v["key"]:
+                chk.violation("C07.accept", "%s:%s@%s" % (key0, v["key"].split(":")[-1], cfgname), "[%s] MotionProfile::new accepts moves that are not feasible trapezoids (%s): velocity/position continuity and arrival at the goal are only guaranteed for 0 <= t1 <= t2 <= t3"
+                              % ("release profile" if cfgname == "K6" else "debug profile", v["what"]), **v.get("detail", {}))
+                okc = False
+            elif "end-command-kind" in v["key"] and cfgname == "K1":
+                chk.violation("C07.goal", "goal:end-command:" + v["key"].split(":")[-1], "from completion onward the accessors report the end command, which must fix the end state's velocity (lowest non-zero derivative of the end state): "
+                              + v["what"], **v.get("detail", {}))
+                okc = False
+            elif v["rule"] == "analysis-incomplete" and cfgname == "K6":
+                chk.violation(v["rule"], v["key"] + "@K6", v["what"], **v.get("detail", {}))
+                okc = False
+    C06.check_constructor(report.Check("C07", chk.tier), prog, sim)   # restore FIELD_UNITS learnt from the primary configuration
+    if okc:
+        chk.discharge(key0)
 
     def inh(name):
         fs = [f for f in prog.find_fns(name=name, self_name="MotionProfile") if not f.get("impl_trait")]
